@@ -88,6 +88,19 @@ def run_unit(job):
     except Unsupported as u:
       res['undecided'] = str(u)
       res['trace'] = traceback.format_exc()[-1500:]
+      if kind == 'contract' and 'needs an invariant' in str(u):
+        # the loop the contract's invariant was written for is gone (the code changed): BOUNDED stand-in, used only
+        # to look for a counterexample - a pass proves nothing and the unit stays undecided
+        try:
+          repo, reg = load_registry()
+          ctx = Ctx(repo, reg, '%s/%s' % (prop, name))
+          ctx.bounded_lists = 3
+          con = [c for c in reg.contracts if c.name == name and prop in c.props][0]
+          Exec(ctx).verify_unit(con)
+          res['bounded'] = getattr(ctx, 'bounded_notes', [])
+          res['undecided'] = str(u) + ' [bounded stand-in run: %s]' % '; '.join(res['bounded'])
+        except Unsupported as u2:
+          res['undecided'] = str(u) + ' [bounded stand-in not possible: %s]' % u2
     res['exec_s'] = round(time.time() - t0, 3)
     solve.discharge(ctx.obligations, timeout_ms, observe=ctx.observe)
     for name_, pc in ctx.covers:
@@ -178,6 +191,7 @@ def main(argv=None):
   for r in results:
     for ob in r['obligations']:
       ob['unit'] = r['unit']
+      ob['bounded'] = r.get('bounded') is not None
       all_obs.append(ob)
   sat = [o for o in all_obs if o['status'] == 'sat']
   unknown = [o for o in all_obs if o['status'] == 'unknown']
@@ -191,6 +205,8 @@ def main(argv=None):
   if baseline is not None:
     bad_names = {}
     for o in unknown:
+      if o.get('bounded'):
+        continue        # bounded stand-in after a code change: only a counter-model counts, never an `unknown`
       bad_names.setdefault(o['name'], []).append(o)
     for name_, obs in bad_names.items():
       if name_ not in baseline.get('obligations', {}) and name_ not in baseline.get('all_names', [name_]):
